@@ -18,7 +18,11 @@ Proof.
   - inversion H.
   - inversion H; subst; cbn; lia.
   - destruct (negb (on_disk e u)); [inversion H|].
-    destruct (is_some (d_vfs d u) && negb (is_mod e u)); inversion H; subst; cbn; lia.
+    destruct (d_vfs d u) as [cur|]; [|inversion H].
+    destruct (negb (is_mod e u)); [inversion H; subst; cbn; lia|].
+    destruct (disk_text e u) as [t|]; [|inversion H].
+    destruct (N.eqb cur t); inversion H; subst; cbn; lia.
+  - inversion H.
   - inversion H.
   - destruct k; inversion H; subst; cbn; lia.
 Qed.
@@ -57,17 +61,26 @@ Proof.
   rewrite fin_unfold. reflexivity.
 Qed.
 
-Lemma fin_cl : forall e u d,
-  fin e (PCL1 u) d =
-  let d1 := set_open u None d in
+Definition after_close (e : env) (u : uri) (d1 : docs) : docs :=
   if negb (on_disk e u) then set_vfs u None d1
-  else if is_some (d_vfs d u) && negb (is_mod e u) then set_vfs u None d1 else d1.
+  else match d_vfs d1 u with
+       | None => d1
+       | Some cur =>
+           if negb (is_mod e u) then set_vfs u None d1
+           else match disk_text e u with
+                | Some t => if N.eqb cur t then d1 else set_vfs u (Some t) d1
+                | None => d1
+                end
+       end.
+
+Lemma fin_cl : forall e u d, fin e (PCL1 u) d = after_close e u (set_open u None d).
 Proof.
-  intros. rewrite fin_unfold. cbn [exec]. rewrite fin_unfold. cbn [exec].
+  intros. rewrite fin_unfold. cbn [exec]. rewrite fin_unfold. cbn [exec]. unfold after_close.
   destruct (negb (on_disk e u)); [reflexivity|].
-  cbn [set_open d_vfs].
-  destruct (is_some (d_vfs d u) && negb (is_mod e u)); [|reflexivity].
-  rewrite fin_unfold. reflexivity.
+  destruct (d_vfs (set_open u None d) u) as [cur|]; [|reflexivity].
+  destruct (negb (is_mod e u)); [rewrite fin_unfold; reflexivity|].
+  destruct (disk_text e u) as [t|]; [|reflexivity].
+  destruct (N.eqb cur t); [reflexivity|]. rewrite fin_unfold. reflexivity.
 Qed.
 
 (** ------------------------------------------------------------------ list helpers *)
@@ -174,7 +187,9 @@ Definition holds (e : env) (u : uri) (a : last_about) (d0 d : docs) : Prop :=
   match a with
   | LNone => d_open d u = d_open d0 u /\ d_vfs d u = d_vfs d0 u
   | LText t => d_open d u = Some t /\ (is_ws e u = true -> d_vfs d u = Some t)
-  | LClosed => d_open d u = None /\ (on_disk e u = false -> d_vfs d u = None)
+  | LClosed => d_open d u = None /\ (on_disk e u = false -> d_vfs d u = None) /\
+               (forall t, on_disk e u = true -> is_mod e u = true -> disk_text e u = Some t ->
+                          d_vfs d u = None \/ d_vfs d u = Some t)
   end.
 
 Lemma upd_same : forall f u v, upd f u v u = v.
@@ -201,16 +216,32 @@ Qed.
 Lemma cl_frame : forall e v d u, N.eqb v u = false ->
   d_open (fin e (PCL1 v) d) u = d_open d u /\ d_vfs (fin e (PCL1 v) d) u = d_vfs d u.
 Proof.
-  intros. rewrite fin_cl. cbv zeta. destruct (negb (on_disk e v)); [|destruct (is_some (d_vfs d v) && negb (is_mod e v))];
+  intros. rewrite fin_cl. unfold after_close.
+  destruct (negb (on_disk e v)); [|destruct (d_vfs (set_open v None d) v) as [cur|];
+    [destruct (negb (is_mod e v)); [|destruct (disk_text e v) as [t|]; [destruct (N.eqb cur t)|]]|]];
     cbn [set_vfs set_open d_open d_vfs]; rewrite ?upd_other by assumption; split; reflexivity.
 Qed.
 
 Lemma cl_hit : forall e u d,
-  d_open (fin e (PCL1 u) d) u = None /\ (on_disk e u = false -> d_vfs (fin e (PCL1 u) d) u = None).
+  d_open (fin e (PCL1 u) d) u = None /\ (on_disk e u = false -> d_vfs (fin e (PCL1 u) d) u = None) /\
+  (forall t, on_disk e u = true -> is_mod e u = true -> disk_text e u = Some t ->
+             d_vfs (fin e (PCL1 u) d) u = None \/ d_vfs (fin e (PCL1 u) d) u = Some t).
 Proof.
-  intros. rewrite fin_cl. cbv zeta. destruct (negb (on_disk e u)) eqn:E; [|destruct (is_some (d_vfs d u) && negb (is_mod e u))];
-    cbn [set_vfs set_open d_open d_vfs]; rewrite ?upd_same; split; try reflexivity;
-    intros Hd; rewrite Hd in E; discriminate.
+  intros. rewrite fin_cl. unfold after_close.
+  destruct (negb (on_disk e u)) eqn:E.
+  - cbn [set_vfs set_open d_open d_vfs]. rewrite !upd_same. split; [reflexivity|]. split; [reflexivity|]. intros; left; reflexivity.
+  - apply negb_false_iff in E.
+    destruct (d_vfs (set_open u None d) u) as [cur|] eqn:Ev.
+    + destruct (negb (is_mod e u)) eqn:Em.
+      * cbn [set_vfs set_open d_open d_vfs]. rewrite !upd_same. split; [reflexivity|]. split; [reflexivity|]. intros; left; reflexivity.
+      * destruct (disk_text e u) as [t|] eqn:Ed.
+        -- destruct (N.eqb cur t) eqn:Ec.
+           ++ apply N.eqb_eq in Ec. subst cur. cbn [set_open d_open]. rewrite upd_same. split; [reflexivity|].
+              split; [intros Hd; congruence|]. intros t' _ _ Ht. inversion Ht; subst. right. exact Ev.
+           ++ cbn [set_vfs set_open d_open d_vfs]. rewrite !upd_same. split; [reflexivity|].
+              split; [intros Hd; congruence|]. intros t' _ _ Ht. inversion Ht; subst. right. reflexivity.
+        -- cbn [set_open d_open]. rewrite upd_same. split; [reflexivity|]. split; [intros Hd; congruence|]. intros; discriminate.
+    + cbn [set_open d_open]. rewrite upd_same. split; [reflexivity|]. split; [intros; exact Ev|]. intros; left; exact Ev.
 Qed.
 
 Lemma holds_step : forall e u acc d0 d n,
@@ -341,7 +372,9 @@ Lemma inline_in_order :
     forall u,
       match last_of u ns LNone with
       | LText t => d_open (s_docs s) u = Some t /\ (is_ws e u = true -> d_vfs (s_docs s) u = Some t)
-      | LClosed => d_open (s_docs s) u = None /\ (on_disk e u = false -> d_vfs (s_docs s) u = None)
+      | LClosed => d_open (s_docs s) u = None /\ (on_disk e u = false -> d_vfs (s_docs s) u = None) /\
+                   (forall t, on_disk e u = true -> is_mod e u = true -> disk_text e u = Some t ->
+                              d_vfs (s_docs s) u = None \/ d_vfs (s_docs s) u = Some t)
       | LNone => d_open (s_docs s) u = d_open d0 u /\ d_vfs (s_docs s) u = d_vfs d0 u
       end.
 Proof.
@@ -371,7 +404,7 @@ Lemma spawned_open_refuted :
     last_of 1%N ns LNone = LText 20%N /\
     d_vfs (s_docs s) 1%N = Some 10%N /\ d_open (s_docs s) 1%N = Some 10%N.
 Proof.
-  set (e := {| is_ws := fun _ => true; on_disk := fun _ => false; is_mod := fun _ => true |}).
+  set (e := {| is_ws := fun _ => true; on_disk := fun _ => false; is_mod := fun _ => true; disk_text := fun _ => None |}).
   set (ns := [NOpen 1%N 10%N; NChange 1%N (Some 20%N)]).
   (* main: dequeue didOpen (spawned), dequeue didChange, run its three sections; then the task *)
   set (sched := [LMain; LMain; LMain; LMain; LMain; LTask 0; LTask 0; LTask 0]).
@@ -384,17 +417,17 @@ Qed.
 
 Local Open Scope N_scope.
 Lemma inline_example :
-  let e := {| is_ws := fun u => u <? 10; on_disk := fun u => u =? 2; is_mod := fun u => u <? 10 |} in
+  let e := {| is_ws := fun u => u <? 10; on_disk := fun u => u =? 2; is_mod := fun u => u <? 10; disk_text := fun u => if u =? 2 then Some 0 else None |} in
   let all := (fun _ : kind => true) in
   let ns := [NOpen 1 10; NOther false 2; NChange 1 (Some 11); NOpen 2 20; NClose 1; NOther false 1;
              NOpen 1 12; NChange 2 None; NClose 2; NOpen 30 40; NChange 1 (Some 13)] in
   let sched := [LMain; LMain; LMain; LMain; LMain; LTask 0; LMain; LMain; LMain; LMain; LMain; LMain; LTask 0;
                 LMain; LMain; LMain; LMain; LMain; LMain; LMain; LMain; LTask 1; LMain; LMain; LMain; LMain; LMain;
-                LMain; LMain; LMain; LMain; LMain; LMain; LMain; LMain; LTask 0; LTask 0] in
+                LMain; LMain; LMain; LMain; LMain; LMain; LMain; LMain; LMain; LTask 0; LTask 0] in
   match run (step e all) (init empty_docs ns) sched with
   | Some s => quiescentb s = true /\
               d_open (s_docs s) 1 = Some 13 /\ d_vfs (s_docs s) 1 = Some 13 /\
-              d_open (s_docs s) 2 = None /\ d_vfs (s_docs s) 2 = Some 20 /\
+              d_open (s_docs s) 2 = None /\ d_vfs (s_docs s) 2 = Some 0 /\
               d_open (s_docs s) 30 = Some 40 /\ d_vfs (s_docs s) 30 = None
   | None => False
   end.
